@@ -29,6 +29,6 @@ func init() {
 		return []*Result{c.RuleMapOrder(), c.RuleDefFragment(), c.RuleNondetSrc([]string{"generate", "update", "compare", "format"})}
 	}}
 	Properties["X-R5"] = &Property{ID: "X-R5", Level: "other", Run: func(c *Ctx, tier string) []*Result {
-		return []*Result{c.RuleReadLine(), c.RuleBorrow(), c.RuleBufwFlush(), c.RuleSearchResume(), c.RuleIdxArray(), c.RuleIncludeFrame(), c.RuleIncludePass(), c.RuleCmdTypeEnum(), c.RuleBuildVars(), c.RuleExclOrder(), c.RuleScanSplit(), c.RuleDoubleWrap(), c.RuleGoShared()}
+		return []*Result{c.RuleReadLine(), c.RuleBorrow(), c.RuleBufwFlush(), c.RuleSearchResume(), c.RuleIdxArray(), c.RuleIncludeFrame(), c.RuleIncludePass(), c.RuleCmdTypeEnum(), c.RuleBuildVars(), c.RuleExclOrder(), c.RuleScanSplit(), c.RuleDoubleWrap(), c.RuleGoShared(), c.RuleCtorDefaults()}
 	}}
 }
